@@ -309,11 +309,6 @@ Proof.
 Qed.
 
 (* a whole sequence of requested outputs *)
-Fixpoint add_outputs (cfg : config) (outs : list output) (req : list output) : result (list output) :=
-  match req with
-  | [] => Ok outs
-  | o :: r => let* outs1 := add_output cfg outs o in add_outputs cfg outs1 r
-  end.
 
 Theorem add_outputs_invariant cfg req : forall outs outs',
   forallb (output_ok cfg) outs = true -> add_outputs cfg outs req = Ok outs' ->
